@@ -56,9 +56,24 @@ pub enum Tr {
     Underscorize,
     Slice13,
     ReplaceAB,
+    /// transformers that cannot be built (unknown type, missing options): skipped, the rest of the chain applies
+    Unknown,
+    ReplaceNoOptions,
+    SliceNoTo,
 }
 
-pub const TRS: [Tr; 7] = [Tr::Lowercase, Tr::Uppercase, Tr::Camelize, Tr::Dasherize, Tr::Underscorize, Tr::Slice13, Tr::ReplaceAB];
+pub const TRS: [Tr; 10] = [
+    Tr::Lowercase,
+    Tr::Uppercase,
+    Tr::Camelize,
+    Tr::Dasherize,
+    Tr::Underscorize,
+    Tr::Slice13,
+    Tr::ReplaceAB,
+    Tr::Unknown,
+    Tr::ReplaceNoOptions,
+    Tr::SliceNoTo,
+];
 
 impl Tr {
     pub fn json(&self) -> Value {
@@ -70,6 +85,9 @@ impl Tr {
             Tr::Underscorize => json!({"type": "underscorize", "options": null}),
             Tr::Slice13 => json!({"type": "slice", "options": {"from": "1", "to": "3"}}),
             Tr::ReplaceAB => json!({"type": "replace", "options": {"something": "a", "with": "b"}}),
+            Tr::Unknown => json!({"type": "reverse", "options": null}),
+            Tr::ReplaceNoOptions => json!({"type": "replace", "options": null}),
+            Tr::SliceNoTo => json!({"type": "slice", "options": {"from": "1"}}),
         }
     }
     /// reference semantics (the three case conversions trust `heck`)
@@ -90,6 +108,7 @@ impl Tr {
                 }
             }
             Tr::ReplaceAB => v.replace('a', "b"),
+            Tr::Unknown | Tr::ReplaceNoOptions | Tr::SliceNoTo => v.to_string(),
         }
     }
 }
@@ -156,8 +175,10 @@ fn value_of(types: &[MType], s: &Slot) -> (String, bool) {
     }
 }
 
-const TARGET: &str = "/t/@abc|@ab|@a|@x|@y|@zz/end?k=@a";
-const HEADER_VALUE: &str = "pre-@ab-@a-post";
+// references followed by a separator, by the end of the string, and directly by a name character (`@a_s`, `@y9`,
+// `@xs`): substitution is textual, whatever follows the reference
+const TARGET: &str = "/t/@abc|@ab|@a|@x|@y|@zz/end?k=@a&m=@a_s&n=@y9@xs";
+const HEADER_VALUE: &str = "pre-@ab-@a-post@a_1";
 const TEXT_VALUE: &str = "[@a@ab]";
 const HTML_VALUE: &str = "<i>@a</i>";
 
@@ -238,7 +259,7 @@ pub fn build(case: &Case) -> (Rule, Request, RouterConfig, bool, Vec<(String, St
         // explicit variables of every kind; raw marker references are then not substituted (only variables are)
         let first = &case.slots[0];
         rule["variables"] = json!([
-            {"name": "v1", "type": {"marker": first.name}, "transformers": [{"type": "uppercase", "options": null}]},
+            {"name": "v1", "type": {"marker": first.name}, "transformers": [{"type": "reverse", "options": null}, {"type": "uppercase", "options": null}]},
             {"name": "vhost", "type": "request_host", "transformers": []},
             {"name": "vmeth", "type": "request_method", "transformers": [{"type": "lowercase", "options": null}]},
             {"name": "vpath", "type": "request_path", "transformers": []},
